@@ -190,7 +190,7 @@ theorem frame_handleBeginUnstake (s : State) (a signer : Addr) : Frame s (handle
       · exact Frame.refl s
       · exact ⟨rfl, rfl, rfl⟩
 
-theorem frame_handleUnjail (s : State) (h t now : Int) (a signer : Addr) : Frame s (handleUnjail s h t now a signer).1 := by
+theorem frame_handleUnjail (s : State) (h t : Int) (a signer : Addr) : Frame s (handleUnjail s h t a signer).1 := by
   unfold handleUnjail
   cases aget s.vals a with
   | none => exact Frame.refl s
@@ -208,16 +208,14 @@ theorem frame_handleUnjail (s : State) (h t now : Int) (a signer : Addr) : Frame
             simp only
             split
             · exact Frame.refl s
-            · split
-              · exact Frame.refl s
-              · unfold unjailValidator
-                cases aget s.vals v.addr with
-                | none => exact Frame.refl s
-                | some w =>
-                  simp only
-                  split
-                  · exact Frame.refl s
-                  · exact ⟨by simp [resetSigningInfo, clearMissed], by simp [resetSigningInfo, clearMissed], by simp [resetSigningInfo, clearMissed]⟩
+            · unfold unjailValidator
+              cases aget s.vals v.addr with
+              | none => exact Frame.refl s
+              | some w =>
+                simp only
+                split
+                · exact Frame.refl s
+                · exact ⟨by simp [resetSigningInfo, clearMissed], by simp [resetSigningInfo, clearMissed], by simp [resetSigningInfo, clearMissed]⟩
 
 theorem frame_mintTo (s : State) (amount : Int) (to : Addr) : Frame s (mintTo s amount to) := by
   unfold mintTo fromPool
@@ -232,7 +230,7 @@ theorem frame_step (s : State) (op : Op) (hne : ∀ h t, op ≠ .endBlock h t) (
   cases op with
   | stake h m signer => exact frame_handleStake s h m signer
   | beginUnstake a signer => exact frame_handleBeginUnstake s a signer
-  | unjail h t now a signer => exact frame_handleUnjail s h t now a signer
+  | unjail h t a signer => exact frame_handleUnjail s h t a signer
   | burn a amount => exact frame_simpleSlash s a amount
   | beginBlock h t votes evs => exact frame_beginBlock s h t votes evs
   | endBlock h t => exact absurd rfl (hne h t)
